@@ -39,7 +39,7 @@ CORPUS = [
 MODELS = ['DEFAULT', 'AMR']     # the last corpus graph reads differently under the two
 TERMS = {'LF': '\n', 'CRLF': '\r\n', 'CR': '\r'}
 INDENTS = [-1, None, 0]
-SERIALS = ['dumps', 'dump_stringio', 'dump_file', 'join_blank', 'join_newline', 'join_space', 'join_none']
+SERIALS = ['dumps', 'dump_stringio', 'dump_file', 'dump_file_utf16', 'join_blank', 'join_newline', 'join_space', 'join_none']
 CONTAINERS = ['str', 'lines', 'lines_with_terminators', 'stream', 'filename', 'filehandle']
 
 
@@ -117,6 +117,15 @@ def check(case, ctx):
             buf = io.StringIO()
             penman.dump(originals, buf, model=model, indent=indent)
             text = buf.getvalue()
+        elif ser == 'dump_file_utf16':
+            p = os.path.join(d, 'dump16.txt')
+            penman.dump(list(originals), p, model=model, indent=indent, encoding='utf-16')
+            back = penman.load(p, model=model, encoding='utf-16')
+            if [_sig(g) for g in back] != want:
+                ctx.fail('dump(file name, encoding=utf-16) then load(file name, encoding=utf-16) does not return the graphs', expected=want, observed=[_sig(g) for g in back])
+                return
+            with open(p, encoding='utf-16', newline='') as fh:
+                text = fh.read()
         elif ser == 'dump_file':
             p = os.path.join(d, 'dump.txt')
             with open(p, 'w', encoding='utf-8') as fh:
